@@ -35,7 +35,7 @@ pub enum Case {
 pub const ORDINARY: &[&str] = &[
     "div", "span", "section", "article", "aside", "header", "footer", "main", "nav", "ul", "ol", "dl", "figure", "figcaption",
     "blockquote", "details", "summary", "fieldset", "label", "output", "abbr", "cite", "q", "sub", "sup", "var", "time", "data",
-    "mark", "kbd", "samp", "dfn", "bdi", "bdo", "ins", "del", "x-custom", "my-element",
+    "mark", "kbd", "samp", "dfn", "bdi", "bdo", "ins", "del", "x-custom", "my-element", "template",
 ];
 const ATTR_NAMES: &[&str] = &["id", "class", "title", "lang", "data-x", "data-y", "href", "aria-label", "style", "onclick"];
 const SPECIAL_CHARS: &[char] = &[
@@ -196,9 +196,14 @@ fn build(dom: &RcDom, parent: &Handle, kids: &[GNode]) {
                         Some(("math", l)) => QualName::new(None, Namespace::from("http://www.w3.org/1998/Math/MathML"), LocalName::from(l)),
                         _ => html_name(name),
                     };
-                    let e = dom.create_element(qn, a, ElementFlags::default());
+                    let is_template = name == "template";
+                    let mut flags = ElementFlags::default();
+                    flags.template = is_template;
+                    let e = dom.create_element(qn, a, flags);
                     dom.append(&p, NodeOrText::AppendNode(e.clone()));
-                    work.push((e, kids));
+                    // a template's children live in its template contents
+                    let below = if is_template { dom.get_template_contents(&e) } else { e };
+                    work.push((below, kids));
                 },
             }
         }
@@ -260,6 +265,90 @@ fn unescape(run: &str, attr: bool) -> Result<String, String> {
     Ok(out)
 }
 
+/// `inner` (the children of element `n`, serialized with `n` named as parent) must be the
+/// concatenation of its children's own serializations.
+fn composed(n: &Handle, name: &QualName, inner: &str, scripting: bool, is_html: bool) -> Result<(), String> {
+    let kids: Vec<Handle> = match &n.data {
+        NodeData::Element { template_contents, .. } if template_contents.borrow().is_some() => {
+            template_contents.borrow().as_ref().unwrap().children.borrow().clone()
+        },
+        _ => n.children.borrow().clone(),
+    };
+    let raw = is_html && (RAW_TEXT.contains(&&*name.local) || (&*name.local == "noscript" && scripting));
+    let mut pos = 0usize;
+    for (i, k) in kids.iter().enumerate() {
+        let rest = &inner[pos..];
+        match &k.data {
+            NodeData::Element { name: kn, .. } => {
+                let o = ser(k, TraversalScope::IncludeNode, scripting)?;
+                if !rest.starts_with(o.as_str()) {
+                    return Err(format!(
+                        "child #{i} <{}> of <{}> (scripting_enabled={scripting}) is written as {:?} inside its parent, but serializes as {o:?} on its own",
+                        &*kn.local,
+                        &*name.local,
+                        &rest[..rest.len().min(o.len() + 20)]
+                    ));
+                }
+                pos += o.len();
+            },
+            NodeData::Text { contents } => {
+                let t = contents.borrow().to_string();
+                if raw {
+                    if !rest.starts_with(t.as_str()) {
+                        return Err(format!("text child #{i} {t:?} of raw-text <{}> is not written verbatim: {:?}", &*name.local, &rest[..rest.len().min(t.len() + 20)]));
+                    }
+                    pos += t.len();
+                } else {
+                    // consume the shortest prefix that decodes to the text
+                    let mut want = t.chars();
+                    let mut used = 0usize;
+                    let mut r = rest;
+                    loop {
+                        let Some(w) = want.next() else { break };
+                        let mut hit = None;
+                        for (e, c) in [("&amp;", '&'), ("&lt;", '<'), ("&gt;", '>'), ("&quot;", '"'), ("&nbsp;", '\u{A0}')] {
+                            if r.starts_with(e) && c == w {
+                                hit = Some(e.len());
+                                break;
+                            }
+                        }
+                        let step = match hit {
+                            Some(l) => l,
+                            None => match r.chars().next() {
+                                Some(c) if c == w && c != '<' && c != '&' => c.len_utf8(),
+                                _ => {
+                                    return Err(format!(
+                                        "text child #{i} {t:?} of <{}> (namespace {:?}, scripting_enabled={scripting}) is written as {:?}, which does not decode back to it",
+                                        &*name.local,
+                                        &*name.ns,
+                                        &rest[..rest.len().min(t.len() + 20)]
+                                    ))
+                                },
+                            },
+                        };
+                        used += step;
+                        r = &r[step..];
+                    }
+                    pos += used;
+                }
+            },
+            NodeData::Comment { contents } => {
+                let c = format!("<!--{}-->", &**contents);
+                if !rest.starts_with(c.as_str()) {
+                    return Err(format!("comment child #{i} of <{}> is written as {:?}", &*name.local, &rest[..rest.len().min(c.len() + 20)]));
+                }
+                pos += c.len();
+            },
+            // doctype / PI / document children do not occur below elements in these trees
+            _ => return Ok(()),
+        }
+    }
+    if pos != inner.len() {
+        return Err(format!("children of <{}> serialize to {inner:?}: {} byte(s) more than the children account for", &*name.local, inner.len() - pos));
+    }
+    Ok(())
+}
+
 /// inner == outer for every element below `root`; plus the decode checks.
 fn inner_outer(root: &Handle, st: &mut Stats) -> Result<(), String> {
     let mut stack = vec![root.clone()];
@@ -294,6 +383,10 @@ fn inner_outer(root: &Handle, st: &mut Stats) -> Result<(), String> {
                     &*name.ns
                 ));
             }
+            // compositional: the children's part is the concatenation of what each child writes on
+            // its own - element children exactly as when serialized alone, text raw under an HTML
+            // raw-text parent and otherwise as a run that decodes back to it, comments verbatim
+            composed(&n, name, &inner, scripting, is_html)?;
             // start tag: every attribute value decodes back to the original
             let start = &outer[..gt + 1];
             // skip the tag name (it may itself contain '=' and quotes); every attribute is
@@ -430,7 +523,7 @@ pub fn check(case: &Case, st: &mut Stats) -> Result<(), String> {
 
 pub fn run(ctx: &Ctx) -> Report {
     let mut rep = Report::new(
-        "(a) Constructed trees: RcDom trees built directly (so arbitrary strings survive un-normalised) over the ordinary vocabulary (div span section article aside header footer main nav ul ol dl figure figcaption blockquote details summary fieldset label output abbr cite q sub sup var time data mark kbd samp dfn bdi bdo ins del and custom names; no void, raw-text, RCDATA, implied-end-tag, formatting, table, select, heading, pre/listing/textarea elements), attribute names from a safe pool, attribute values and text arbitrary Unicode minus CR and NUL (biased to & < > \" ' U+00A0, every 2-byte character with lead byte 0xC2/0xC3, lone & before entity names, </ <!-- ]]>, attribute-breaking snippets), text non-empty and never adjacent to text: serialize(ChildrenOnly(None)) then parse_fragment(context div, discard_bom=false) must reproduce the tree exactly. (b) Inner/outer on every element of those trees and of trees parsed from grammar-generated HTML (raw-text elements, foreign style/script/title, templates, noscript), for scripting_enabled in {true,false}: serialize(IncludeNode) must equal start-tag + serialize(ChildrenOnly(Some(name))) + end-tag for every non-void element; every attribute value and every text-only element's text must decode back to the original by inverting the five entities (&amp; &lt; &gt; &quot; &nbsp;) with no raw \"/</& left in the run, and text must be verbatim iff the parent is an HTML-namespace raw-text element (noscript only with scripting). (c) the same inner/outer and decode clauses on trees parsed with the scripting flag off (noscript has element children) and on constructed trees over ANY vocabulary - raw-text elements, foreign elements and templates nested in each other in ways no parser run produces - and the round trip on elements with up to 400 children. Non-trivial: a built tree with a string that needs escaping or a 0xC2 byte, or any parsed tree; distinct by serialization hash.",
+        "(a) Constructed trees: RcDom trees built directly (so arbitrary strings survive un-normalised) over the ordinary vocabulary (div span section article aside header footer main nav ul ol dl figure figcaption blockquote details summary fieldset label output abbr cite q sub sup var time data mark kbd samp dfn bdi bdo ins del template - with its children in the template contents - and custom names; no void, raw-text, RCDATA, implied-end-tag, formatting, table, select, heading, pre/listing/textarea elements), attribute names from a safe pool, attribute values and text arbitrary Unicode minus CR and NUL (biased to & < > \" ' U+00A0, every 2-byte character with lead byte 0xC2/0xC3, lone & before entity names, </ <!-- ]]>, attribute-breaking snippets), text non-empty and never adjacent to text: serialize(ChildrenOnly(None)) then parse_fragment(context div, discard_bom=false) must reproduce the tree exactly. (b) Inner/outer on every element of those trees and of trees parsed from grammar-generated HTML (raw-text elements, foreign style/script/title, templates, noscript), for scripting_enabled in {true,false}: serialize(IncludeNode) must equal start-tag + serialize(ChildrenOnly(Some(name))) + end-tag for every non-void element; every attribute value and every text-only element's text must decode back to the original by inverting the five entities (&amp; &lt; &gt; &quot; &nbsp;) with no raw \"/</& left in the run, and text must be verbatim iff the parent is an HTML-namespace raw-text element (noscript only with scripting). (c) the same inner/outer and decode clauses on trees parsed with the scripting flag off (noscript has element children) and on constructed trees over ANY vocabulary - raw-text elements, foreign elements and templates nested in each other in ways no parser run produces - and the round trip on elements with up to 400 children. Non-trivial: a built tree with a string that needs escaping or a 0xC2 byte, or any parsed tree; distinct by serialization hash.",
     );
     rep.assume("'arbitrary attribute values and arbitrary text free of CR and NUL' is read as: both are free of CR and NUL (the HTML syntax cannot represent a CR in an attribute value: the input stream normalises it)");
     rep.assume("void elements are exempt from inner==outer (they have no end tag)");
